@@ -608,9 +608,20 @@ where
         &mut self,
         diff: &Diff<T>,
     ) -> Result<(), Self::Error> {
-        self.insert_records(diff.patch.records(), true).await?;
+        // Verify against the checkpoint before writing to the
+        // database so that a refused diff does not change the
+        // event log
+        let mut tree = CommitTree::new();
+        let mut hashes = diff
+            .patch
+            .records()
+            .iter()
+            .map(|r| *r.commit().as_ref())
+            .collect::<Vec<_>>();
+        tree.append(&mut hashes);
+        tree.commit();
 
-        let computed = self.tree().head()?;
+        let computed = tree.head()?;
         let verified = computed == diff.checkpoint;
         if !verified {
             return Err(Error::CheckpointVerification {
@@ -620,7 +631,7 @@ where
             .into());
         }
 
-        Ok(())
+        self.insert_records(diff.patch.records(), true).await
     }
 
     async fn patch_unchecked(
